@@ -77,6 +77,9 @@ func (g *gen) operand() string {
 	case k < 97:
 		return "qq=1" // a variable the program does not have: ignored
 	case k < 98:
+		if g.n(2) == 0 {
+			return "40471" // a (missing) file whose name is a number: BEGIN may assign it to ARGV as a NUMBER (model.go, op "sa")
+		}
 		return "=x" // not an assignment: a (missing) file
 	case k < 99:
 		return "1a=2" // not an assignment either
@@ -94,6 +97,15 @@ func (g *gen) spOp() Op {
 		return Op{K: "sf", S: []string{"zz", "k2", "-"}[g.n(3)]}
 	}
 	return Op{K: "sfs", S: g.fsVal()}
+}
+
+// argvVal: what BEGIN assigns to an ARGV element — an operand, or (one time in eight) the name 40471, which model.go also
+// writes as a number
+func (g *gen) argvVal() string {
+	if g.n(8) == 0 {
+		return "40471"
+	}
+	return g.operand()
 }
 
 func (g *gen) operands() []string {
@@ -207,7 +219,7 @@ func (g *gen) argvCase() *Case {
 		if g.n(4) == 0 {
 			cs.Begin = append(cs.Begin, Op{K: "sc", N: g.n(n + 3)})
 		} else {
-			cs.Begin = append(cs.Begin, Op{K: "sa", N: 1 + g.n(n+2), S: g.operand()})
+			cs.Begin = append(cs.Begin, Op{K: "sa", N: 1 + g.n(n+2), S: g.argvVal()})
 		}
 	}
 	if g.n(4) == 0 {
@@ -274,7 +286,7 @@ func (g *gen) ops(where, depth int, base int) []Op {
 		case r < 96 && g.n(2) == 0:
 			ops = append(ops, g.spOp())
 		case r < 97:
-			ops = append(ops, Op{K: "sa", N: 1 + g.n(len0(g)+2), S: g.operand()})
+			ops = append(ops, Op{K: "sa", N: 1 + g.n(len0(g)+2), S: g.argvVal()})
 		case r < 98:
 			ops = append(ops, Op{K: "sc", N: g.n(len0(g) + 3)})
 		default:
